@@ -3,6 +3,7 @@ package rules
 import (
 	"fmt"
 	"go/token"
+	"go/types"
 	"sort"
 	"strings"
 
@@ -42,7 +43,7 @@ func removalCallees(fn *ssa.Function) []string {
 func C19(c *Ctx) {
 	r := c.R
 	r.Rule("R19.1", "eviction guard: in RemoveAliveTimeoutTxs a transaction is recorded for removal (and its hash dropped) only across: older than the tolerance, not in batchedTxs, not in the priority (ready) index, present in the parking-lot index.")
-	r.Rule("R19.2", "per-account scoping: inside a loop over a per-account map (account -> txs), a removal applied to a structure that belongs to one account (obtained by looking the loop's account up) receives only that account's transactions, not the whole map.")
+	r.Rule("R19.2", "per-account scoping: inside a loop over a per-account map (account -> txs), a removal applied to a structure that belongs to one account (obtained by looking the loop's account up) receives only that account's transactions: the map handed to it is made in the same iteration, not the ranged map itself and not a map defined before the loop that collects the entries of several accounts.")
 	r.Rule("R19.3", "index pairing: the commit path and the eviction path remove a transaction from the same set of indices (per-account nonce index, priority, parking lot, ttl, arrival-time) and both drop its hash from txHashMap.")
 	r.Rule("R19.4", "ready counter: priorityNonBatchSize is written only in processDirtyAccount (+ number of newly ready), generateBlock (- batch length, reset) and processCommitTransactions (clamped to exactly priorityIndex.size(), no arithmetic on the bound), and HasPendingRequest reports exactly counter > 0.")
 	r.Rule("R19.5", "index key agreement: every probe / removal on one of the pool's ordered indices builds its key the way the insertions into that index do (same key type; for timestamped keys the same timestamp source: the transaction's own timestamp vs. a recorded local time).")
@@ -157,8 +158,38 @@ func C19(c *Ctx) {
 							continue
 						}
 						cl := mc.Fn.(*ssa.Function)
+						// the goroutine is launched inside this loop
+						var header *ssa.BasicBlock
+						if rg.Referrers() != nil {
+							for _, ref := range *rg.Referrers() {
+								if nx, ok := ref.(*ssa.Next); ok {
+									header = nx.Block()
+								}
+							}
+						}
+						if header == nil || !blockReach(header, g.Block()) || !blockReach(g.Block(), header) {
+							continue
+						}
 						for ai, a := range g.Call.Args {
-							if !sameValue(a, ranged) && core.VarIdentity(a) != core.VarIdentity(ranged) || core.VarIdentity(ranged) == nil && !sameValue(a, ranged) {
+							// an account -> txs map that is not made in this iteration: the ranged map itself, or a map defined
+							// before the loop (possibly filled across iterations)
+							if _, isMap := a.Type().Underlying().(*types.Map); !isMap {
+								continue
+							}
+							outside := false
+							for _, val := range varValues(fn, a) {
+								for _, o := range core.RetOrigins(val) {
+									switch d := core.Strip(o.V).(type) {
+									case ssa.Instruction:
+										if !blockReach(header, d.Block()) {
+											outside = true
+										}
+									default:
+										outside = true
+									}
+								}
+							}
+							if !outside && !sameValue(a, ranged) {
 								continue
 							}
 							if ai >= len(cl.Params) {
@@ -317,4 +348,27 @@ func C19(c *Ctx) {
 		r.Check(ok, "R19.4", "HasPendingRequest = counter > 0", c.P.Pos(hp.Pos()), "reports the ready counter", "HasPendingRequest does not report the ready counter")
 	}
 	_ = fmt.Sprintf
+}
+
+
+// blockReach: to is reachable from from through CFG successors (from itself included).
+func blockReach(from, to *ssa.BasicBlock) bool {
+	seen := map[*ssa.BasicBlock]bool{}
+	var walk func(b *ssa.BasicBlock) bool
+	walk = func(b *ssa.BasicBlock) bool {
+		if b == to {
+			return true
+		}
+		if seen[b] {
+			return false
+		}
+		seen[b] = true
+		for _, s := range b.Succs {
+			if walk(s) {
+				return true
+			}
+		}
+		return false
+	}
+	return walk(from)
 }
